@@ -785,10 +785,6 @@ class FillNode(BaseNode):
         # `{% component %} ... {% endcomponent %}`. Hence we search for the last
         # index of `FILL_GEN_CONTEXT_KEY`.
         index_of_new_layers = get_last_index(context.dicts, lambda d: FILL_GEN_CONTEXT_KEY in d)
-        for dict_layer in context.dicts[index_of_new_layers:]:
-            for key, value in dict_layer.items():
-                if not key.startswith("_"):
-                    data.extra_context[key] = value
 
         # To allow using the variables from the forloops inside the fill tags, we need to
         # capture those variables too.
@@ -814,9 +810,12 @@ class FillNode(BaseNode):
         #   {'forloop': {'parentloop': {...}, 'counter0': 2, 'counter': 3, ... }, 'outer': 2},
         #   {'forloop': {'parentloop': {...}, 'counter0': 1, 'counter': 2, ... }, 'slot_name': 'slot2'}
         # ]
-        for layer in context.dicts:
-            if "forloop" in layer:
-                layer = layer.copy()
+        #
+        # NOTE: The layers are applied in the order of the stack, so that inside the fill the variables
+        # shadow each other the same way as they do at the position of the `{% fill %}` tag.
+        for index, dict_layer in enumerate(context.dicts):
+            if "forloop" in dict_layer:
+                layer = dict_layer.copy()
                 layer["forloop"] = layer["forloop"].copy()
                 # Copy also the state of the (potentially nested) parent loops
                 curr_forloop = layer["forloop"]
@@ -824,6 +823,10 @@ class FillNode(BaseNode):
                     curr_forloop["parentloop"] = curr_forloop["parentloop"].copy()
                     curr_forloop = curr_forloop["parentloop"]
                 data.extra_context.update(layer)
+            elif index >= index_of_new_layers:
+                for key, value in dict_layer.items():
+                    if not key.startswith("_"):
+                        data.extra_context[key] = value
 
         collected_fills.append(data)
 
